@@ -15,7 +15,7 @@ class Contract:
                  inline=False, trusted=False, pure=False, auto=True, result_fresh=True,
                  prop_of=None, notes='', cls_targs=None, verify=True, terminates=True, unroll=None,
                  reads_only=False, this_shape=None, extra_env=None, body_assumes=(), max_paths=4000,
-                 returns_ref=None, timeout_ms=None, sig_not=None, binds=None, ghost=None, ghost_on=(), nowrap=False, post_facts=(), value=None, ensures_after=(), globals=(), custom=None):
+                 returns_ref=None, timeout_ms=None, sig_not=None, binds=None, ghost=None, ghost_on=(), nowrap=False, post_facts=(), value=None, ensures_after=(), globals=(), custom=None, facts_on=()):
         self.name = name
         self.tu = tu
         self.sig = sig
@@ -55,6 +55,7 @@ class Contract:
         if value is not None:
             self.ensures.append(('value', 'result == (%s)' % value))
         self.timeout_ms = timeout_ms
+        self.facts_on = list(facts_on)   # [(trigger 'call:<callee>' | 'ret:<callee>', [lemma instance, ...])]
         self.custom = custom       # callable(contract) -> [(label, kind, props, ok, detail, model)] (whole-TU frame scans)
 
     def props_for(self, label):
